@@ -28,8 +28,9 @@ P4a == [k |-> 1, port |-> 6881, f |-> 0, six |-> FALSE]
 P4b == [k |-> 2, port |-> 1, f |-> 19, six |-> FALSE]
 P6a == [k |-> 3, port |-> 65535, f |-> 1, six |-> TRUE]
 P6b == [k |-> 4, port |-> 256, f |-> 2, six |-> TRUE]
+P6m == [k |-> 5, port |-> 6881, f |-> 1, six |-> TRUE]     \* an IPv4-mapped IPv6 address: still an 18-byte entry of added6
 NoF(ps) == [k \in 1..Len(ps) |-> [ps[k] EXCEPT !.f = 0]]
-Lists == {<<>>, <<P4a>>, <<P6a>>, <<P4a, P6a>>, <<P6a, P4b, P6b>>, <<P4a, P4b>>}
+Lists == {<<>>, <<P4a>>, <<P6a>>, <<P4a, P6a>>, <<P6a, P4b, P6b>>, <<P4a, P4b>>, <<P6m>>, <<P4a, P6m>>}
 MPx == {[k |-> "ExtendedPex", sub |-> s, added |-> a, dropped |-> NoF(d)] : s \in {1, 5}, a \in Lists, d \in Lists}
 MDh == {[k |-> "ExtendedDontHave", sub |-> s, index |-> v] : s \in {3, 7}, v \in Vals}
 
